@@ -25,8 +25,17 @@ fn show_action(a: &Action) -> String {
         Action::Raise(x) => format!("raise:{x}"),
         Action::Shove(x) => format!("shove:{x}"),
         Action::Blind(x) => format!("blind:{x}"),
-        Action::Draw(h) => format!("draw:{}", u64::from(*h)),
+        Action::Draw(h) => { let h = *h; format!("draw:{}", word(move || u64::from(h))) }
     }
+}
+/// a real accessor / conversion used only to PRINT a value: its panic is printed as the word `panic`
+/// (and so differs from the model line), it never takes the harness down
+fn word(f: impl FnOnce() -> u64 + std::panic::UnwindSafe) -> String {
+    catch(f).map(|x| x.to_string()).unwrap_or_else(|| "panic".into())
+}
+fn show_obs(o: &Observation) -> String {
+    let o = *o;
+    format!("{} {}", word(move || u64::from(*o.pocket())), word(move || u64::from(*o.public())))
 }
 fn show_edge(e: &Edge) -> String {
     match e {
@@ -49,7 +58,8 @@ fn variant(a: &Abstraction) -> u8 {
     }
 }
 fn show_abs(a: &Abstraction) -> String {
-    format!("{}:{}", variant(a), u64::from(*a))
+    let x = *a;
+    format!("{}:{}", variant(a), word(move || u64::from(x)))
 }
 fn street_no(s: Street) -> usize {
     s as isize as usize
@@ -63,6 +73,17 @@ fn opt(x: Option<String>) -> String {
 /// expected street number from the number of board cards (poker rules, not the code's table)
 fn street_by_board(n: u32) -> Option<usize> {
     match n { 0 => Some(0), 3 => Some(1), 4 => Some(2), 5 => Some(3), _ => None }
+}
+
+/// a real conversion applied to a VALID value (one the property covers): a panic is an oracle failure
+/// of class `conversion-panics`; the caller then prints `panic` as the answer of the line
+fn cv<T>(run: &mut Run, what: &dyn Fn() -> String, f: impl FnOnce() -> T) -> Option<T> {
+    let r = catch(std::panic::AssertUnwindSafe(f));
+    if r.is_none() {
+        run.spec_checked += 1;
+        run.fail("conversion-panics", &what(), "a code / the value back", "panic");
+    }
+    r
 }
 
 struct Distinct {
@@ -90,8 +111,14 @@ impl Distinct {
 
 fn obs_case(run: &mut Run, pocket: u64, public: u64, lines: bool, dist: &mut Distinct) {
     run.evaluations += 1;
-    let o = Observation::from((Hand::from(pocket), Hand::from(public)));
-    let code = i64::from(o);
+    let o = match cv(run, &|| format!("Observation::from((Hand::from({pocket}), Hand::from({public})))"), || Observation::from((Hand::from(pocket), Hand::from(public)))) {
+        Some(o) => o,
+        None => { run.line(&format!("enc-obs {pocket} {public}"), "panic"); return; }
+    };
+    let code = match cv(run, &|| format!("i64::from(Observation pocket={pocket} public={public})"), || i64::from(o)) {
+        Some(c) => c,
+        None => { run.line(&format!("enc-obs {pocket} {public}"), "panic"); return; }
+    };
     dist.push(code as i128);
     let back = catch(move || Observation::from(code));
     let st = catch(move || Street::from(code));
@@ -99,17 +126,17 @@ fn obs_case(run: &mut Run, pocket: u64, public: u64, lines: bool, dist: &mut Dis
     let input = format!("obs pocket={pocket} public={public}");
     match back {
         Some(b) if b == o => {}
-        Some(b) => run.fail("observation-roundtrip", &input, &format!("{pocket} {public}"), &format!("{} {}", u64::from(*b.pocket()), u64::from(*b.public()))),
+        Some(b) => run.fail("observation-roundtrip", &input, &format!("{pocket} {public}"), &show_obs(&b)),
         None => run.fail("observation-roundtrip", &input, &format!("{pocket} {public}"), "panic"),
     }
     let want = street_by_board(public.count_ones());
     match (st, want) {
-        (Some(s), Some(w)) if street_no(s) == w && street_no(o.street()) == w => {}
+        (Some(s), Some(w)) if street_no(s) == w && catch(move || street_no(o.street())) == Some(w) => {}
         (s, w) => run.fail("street-from-observation-code", &input, &format!("{w:?}"), &format!("{:?}", s.map(street_no))),
     }
     if lines {
         run.line(&format!("enc-obs {pocket} {public}"), &format!("{code}"));
-        run.line(&format!("dec-obs {code}"), &opt(back.map(|b| format!("{} {}", u64::from(*b.pocket()), u64::from(*b.public())))));
+        run.line(&format!("dec-obs {code}"), &opt(back.map(|b| show_obs(&b))));
         run.line(&format!("street-obs {code}"), &opt(st.map(|s| street_no(s).to_string())));
         run.distinct(&("obs", pocket, public));
     }
@@ -142,23 +169,32 @@ struct Outcome {
 }
 fn exec(step: &Step) -> Outcome {
     let bad = |class: &str, input: String, exp: String, got: String| Some((class.to_string(), input, exp, got));
+    // encoding side of a step: a panic on a valid value ends the step with the `enc` line answered `panic`
+    macro_rules! enc {
+        ($op:expr, $what:expr, $e:expr) => {
+            match catch(std::panic::AssertUnwindSafe(|| $e)) {
+                Some(v) => v,
+                None => return Outcome { op: $op, answer: "panic".into(), fail: bad("conversion-panics", $what, "a code / the value back".into(), "panic".into()) },
+            }
+        };
+    }
     match step.clone() {
         Step::Obs(p, b) | Step::ObsIso(p, b) => {
-            let o = Observation::from((Hand::from(p), Hand::from(b)));
-            let code = i64::from(o);
+            let o = enc!(format!("enc-obs {p} {b}"), format!("Observation::from((Hand::from({p}), Hand::from({b})))"), Observation::from((Hand::from(p), Hand::from(b))));
+            let code = enc!(format!("enc-obs {p} {b}"), format!("i64::from(Observation pocket={p} public={b})"), i64::from(o));
             let iso = matches!(step, Step::ObsIso(..));
             let back = if iso {
                 catch(move || Observation::from(robopoker::cards::isomorphism::Isomorphism::from(code)))
             } else {
                 catch(move || Observation::from(code))
             };
-            let answer = opt(back.map(|x| format!("{} {}", u64::from(*x.pocket()), u64::from(*x.public()))));
+            let answer = opt(back.map(|x| show_obs(&x)));
             let fail = if back == Some(o) { None } else { bad("observation-roundtrip-in-sequence", format!("obs pocket={p} public={b} code={code}{}", if iso { " (via Isomorphism::from(i64))" } else { "" }), format!("{p} {b}"), answer.clone()) };
             Outcome { op: format!("dec-obs {code}"), answer, fail }
         }
         Step::ObsStreet(p, b) => {
-            let o = Observation::from((Hand::from(p), Hand::from(b)));
-            let code = i64::from(o);
+            let o = enc!(format!("enc-obs {p} {b}"), format!("Observation::from((Hand::from({p}), Hand::from({b})))"), Observation::from((Hand::from(p), Hand::from(b))));
+            let code = enc!(format!("enc-obs {p} {b}"), format!("i64::from(Observation pocket={p} public={b})"), i64::from(o));
             let st = catch(move || street_no(Street::from(code)));
             let want = street_by_board(b.count_ones());
             let answer = opt(st.map(|x| x.to_string()));
@@ -166,32 +202,32 @@ fn exec(step: &Step) -> Outcome {
             Outcome { op: format!("street-obs {code}"), answer, fail }
         }
         Step::Act(a) => {
-            let code = u32::from(a);
+            let code = enc!(format!("enc-action {}", show_action(&a)), format!("u32::from({})", show_action(&a)), u32::from(a));
             let back = catch(move || Action::from(code));
             let answer = opt(back.map(|x| show_action(&x)));
             let fail = if back == Some(a) { None } else { bad("action-roundtrip-in-sequence", show_action(&a), show_action(&a), answer.clone()) };
             Outcome { op: format!("dec-action {code}"), answer, fail }
         }
         Step::PathE(l) => {
-            let code = u64::from(Path::from(l.clone()));
+            let code = enc!(format!("enc-path {}", show_edges(&l)), format!("u64::from(Path::from([{}]))", show_edges(&l)), u64::from(Path::from(l.clone())));
             let back = catch(move || Vec::<Edge>::from(Path::from(code)));
             let answer = opt(back.clone().map(|x| show_edges(&x)));
             let fail = if back.as_ref() == Some(&l) { None } else { bad("path-roundtrip-in-sequence", show_edges(&l), show_edges(&l), answer.clone()) };
             Outcome { op: format!("dec-path {code}"), answer, fail }
         }
         Step::PathI(l) => {
-            let code = u64::from(Path::from(l.clone()));
-            let i = i64::from(Path::from(code));
+            let code = enc!(format!("enc-path {}", show_edges(&l)), format!("u64::from(Path::from([{}]))", show_edges(&l)), u64::from(Path::from(l.clone())));
+            let i = enc!(format!("path-i64 {code}"), format!("i64::from(Path [{}] = {code})", show_edges(&l)), i64::from(Path::from(code)));
             let back = catch(move || u64::from(Path::from(i)));
             let answer = opt(back.map(|x| x.to_string()));
             let fail = if back == Some(code) { None } else { bad("path-i64-roundtrip-in-sequence", show_edges(&l), code.to_string(), answer.clone()) };
             Outcome { op: format!("path-of-i64 {i}"), answer, fail }
         }
         Step::Abs(s, i) | Step::AbsI(s, i) => {
-            let ab = Abstraction::from((street_of(s), i));
+            let ab = enc!(format!("abs {s} {i}"), format!("Abstraction::from((street {s}, {i}))"), Abstraction::from((street_of(s), i)));
             let via_i = matches!(step, Step::AbsI(..));
-            let n = u64::from(ab);
-            let iv = i64::from(ab);
+            let n = enc!(format!("abs {s} {i}"), format!("u64::from(Abstraction (street {s}, {i}))"), u64::from(ab));
+            let iv = enc!(format!("abs-i64 {n}"), format!("i64::from(Abstraction (street {s}, {i}))"), i64::from(ab));
             let back = if via_i { catch(move || Abstraction::from(iv)) } else { catch(move || Abstraction::from(n)) };
             let st = back.and_then(|b| catch(move || street_no(b.street())));
             let answer = if via_i {
@@ -203,14 +239,14 @@ fn exec(step: &Step) -> Outcome {
             Outcome { op: if via_i { format!("abs-of-i64 {iv}") } else { format!("dec-abs {n}") }, answer, fail }
         }
         Step::Edge8(e) => {
-            let c = u8::from(e);
+            let c = enc!(format!("enc-edge8 {}", show_edge(&e)), format!("u8::from({})", show_edge(&e)), u8::from(e));
             let back = catch(move || Edge::from(c));
             let answer = opt(back.map(|x| show_edge(&x)));
             let fail = if back == Some(e) { None } else { bad("edge-u8-roundtrip-in-sequence", show_edge(&e), show_edge(&e), answer.clone()) };
             Outcome { op: format!("dec-edge8 {c}"), answer, fail }
         }
         Step::Edge64(e) => {
-            let c = u64::from(e);
+            let c = enc!(format!("enc-edge64 {}", show_edge(&e)), format!("u64::from({})", show_edge(&e)), u64::from(e));
             let back = catch(move || Edge::from(c));
             let answer = opt(back.map(|x| show_edge(&x)));
             let fail = if back == Some(e) { None } else { bad("edge-u64-roundtrip-in-sequence", show_edge(&e), show_edge(&e), answer.clone()) };
@@ -266,8 +302,9 @@ fn other_families(rng: &mut Rng, full: u64, edges: &[Edge], counts: &[usize; 4],
         for a in [Action::Call(y), Action::Raise(y), Action::Shove(y), Action::Blind(y), Action::Call(y)] { out.push(Step::Act(a)); }
     }
     let hi = rng.cards(2, full & !0xFFFF);
-    for c in 0..16u64 { if full >> c & 1 == 1 { out.push(Step::Act(Action::Draw(Hand::from(hi | 1 << c)))); out.push(Step::Act(Action::Draw(Hand::from(hi)))); } }
-    out.push(Step::Act(Action::Fold)); out.push(Step::Act(Action::Check)); out.push(Step::Act(Action::Draw(Hand::from(0u64))));
+    let hand = |raw: u64| catch(move || Hand::from(raw));
+    for c in 0..16u64 { if full >> c & 1 == 1 { if let (Some(h1), Some(h2)) = (hand(hi | 1 << c), hand(hi)) { out.push(Step::Act(Action::Draw(h1))); out.push(Step::Act(Action::Draw(h2))); } } }
+    out.push(Step::Act(Action::Fold)); out.push(Step::Act(Action::Check)); if let Some(h) = hand(0) { out.push(Step::Act(Action::Draw(h))); }
     // paths: a path, its extensions, its prefixes, one edge changed at either end; twice; through i64
     let n = rng.below(16) as usize;
     let base: Vec<Edge> = (0..n).map(|_| edges[rng.below(15) as usize]).collect();
@@ -338,21 +375,23 @@ fn main() {
     let mut d32 = Distinct::new("card-u32");
     for c in 0u8..52 {
         run.evaluations += 1;
-        let card = Card::from(c);
-        let n8 = u8::from(card);
-        let n32 = u32::from(card);
+        let card = match cv(&mut run, &|| format!("Card::from({c}u8)"), || Card::from(c)) { Some(x) => x, None => { run.line(&format!("enc-card8 {c}"), "panic"); continue; } };
+        let n8 = match cv(&mut run, &|| format!("u8::from(card {c})"), || u8::from(card)) { Some(x) => x, None => { run.line(&format!("enc-card8 {c}"), "panic"); continue; } };
         d8.push(n8 as i128);
-        d32.push(n32 as i128);
         run.line(&format!("enc-card8 {c}"), &format!("{n8}"));
-        run.line(&format!("dec-card8 {n8}"), &format!("{}", u8::from(Card::from(n8))));
+        let back8 = cv(&mut run, &|| format!("Card::from({n8}u8) (code of card {c})"), || u8::from(Card::from(n8)));
+        run.line(&format!("dec-card8 {n8}"), &opt(back8.map(|x| x.to_string())));
+        let n32 = match cv(&mut run, &|| format!("u32::from(card {c})"), || u32::from(card)) { Some(x) => x, None => { run.line(&format!("enc-card32 {c}"), "panic"); continue; } };
+        d32.push(n32 as i128);
         run.line(&format!("enc-card32 {c}"), &format!("{n32}"));
         let back = catch(move || u8::from(Card::from(n32)));
         run.line(&format!("dec-card32 {n32}"), &opt(back.map(|x| x.to_string())));
         run.spec_checked += 2;
-        if Card::from(n8) != card { run.fail("card-u8-roundtrip", &format!("card {c}"), &format!("{c}"), &format!("{}", u8::from(Card::from(n8)))); }
+        if back8 != Some(c) { run.fail("card-u8-roundtrip", &format!("card {c}"), &format!("{c}"), &format!("{back8:?}")); }
         if back != Some(c) { run.fail("card-u32-roundtrip", &format!("card {c}"), &format!("{c}"), &format!("{back:?}")); }
         // rank/suit split
-        if u8::from(Card::from((card.rank(), card.suit()))) != c { run.fail("card-rank-suit-roundtrip", &format!("card {c}"), &format!("{c}"), "other"); }
+        let rs = cv(&mut run, &|| format!("Card::from((rank, suit)) of card {c}"), || u8::from(Card::from((card.rank(), card.suit()))));
+        if rs.is_some() && rs != Some(c) { run.fail("card-rank-suit-roundtrip", &format!("card {c}"), &format!("{c}"), &format!("{rs:?}")); }
         run.distinct(&("card", c));
         run.count("card");
     }
@@ -371,18 +410,27 @@ fn main() {
     for i in 0..nh {
         run.evaluations += 1;
         let raw = match i { 0 => 0, 1 => u64::MAX, 2 => full, _ => if i % 3 == 0 { let k = rng.below(8) as usize; rng.cards(k, full) } else { rng.next() } };
-        let h = Hand::from(raw);
-        let n = u64::from(h);
+        let (h, n) = match cv(&mut run, &|| format!("u64::from(Hand::from({raw}u64))"), || { let h = Hand::from(raw); (h, u64::from(h)) }) {
+            Some(x) => x,
+            None => { run.line(&format!("dec-hand {raw}"), "panic"); continue; }
+        };
         run.line(&format!("dec-hand {raw}"), &format!("{n}"));
-        run.line(&format!("enc-hand {n}"), &format!("{}", u64::from(Hand::from(n))));
-        let cards: Vec<u8> = Vec::<Card>::from(h).into_iter().map(u8::from).collect();
-        let iter: Vec<u8> = h.into_iter().map(u8::from).collect();
-        run.line(&format!("cards-hand {n}"), &if cards.is_empty() { "-".into() } else { cards.iter().map(|c| c.to_string()).collect::<Vec<_>>().join(",") });
+        let again = cv(&mut run, &|| format!("Hand::from(u64::from(hand {n}))"), || u64::from(Hand::from(n)));
+        run.line(&format!("enc-hand {n}"), &opt(again.map(|x| x.to_string())));
+        let lists = cv(&mut run, &|| format!("Vec::<Card>::from(hand {n}) / hand.into_iter()"), || {
+            let cards: Vec<u8> = Vec::<Card>::from(h).into_iter().map(u8::from).collect();
+            let iter: Vec<u8> = h.into_iter().map(u8::from).collect();
+            let round = u64::from(Hand::from(Vec::<Card>::from(h)));
+            (cards, iter, round)
+        });
+        run.line(&format!("cards-hand {n}"), &match &lists { None => "panic".into(), Some((cards, _, _)) => if cards.is_empty() { "-".into() } else { cards.iter().map(|c| c.to_string()).collect::<Vec<_>>().join(",") } });
         run.spec_checked += 3;
-        if Hand::from(n) != h { run.fail("hand-u64-roundtrip", &format!("hand {n}"), &format!("{n}"), &format!("{}", u64::from(Hand::from(n)))); }
+        if again.is_some() && again != Some(n) { run.fail("hand-u64-roundtrip", &format!("hand {n}"), &format!("{n}"), &format!("{again:?}")); }
         let want: Vec<u8> = (0..64).filter(|b| n >> b & 1 == 1).collect();
-        if cards != want || iter != want { run.fail("hand-cards", &format!("hand {n}"), &format!("{want:?}"), &format!("{cards:?} / {iter:?}")); }
-        if u64::from(Hand::from(Vec::<Card>::from(h))) != n { run.fail("hand-vec-roundtrip", &format!("hand {n}"), &format!("{n}"), "other"); }
+        if let Some((cards, iter, round)) = lists {
+            if cards != want || iter != want { run.fail("hand-cards", &format!("hand {n}"), &format!("{want:?}"), &format!("{cards:?} / {iter:?}")); }
+            if round != n { run.fail("hand-vec-roundtrip", &format!("hand {n}"), &format!("{n}"), &format!("{round}")); }
+        }
         run.distinct(&("hand", n));
         run.count("hand");
     }
@@ -455,7 +503,7 @@ fn main() {
             };
             let back = catch(move || Observation::from(code));
             let st = catch(move || Street::from(code));
-            run.line(&format!("dec-obs {code}"), &opt(back.map(|b| format!("{} {}", u64::from(*b.pocket()), u64::from(*b.public())))));
+            run.line(&format!("dec-obs {code}"), &opt(back.map(|b| show_obs(&b))));
             run.line(&format!("street-obs {code}"), &opt(st.map(|s| street_no(s).to_string())));
             run.count(if back.is_some() { "obs-garbage-decodes" } else { "obs-garbage-panics" });
         }
@@ -472,19 +520,25 @@ fn main() {
             acts.push((Action::Shove(x), tag));
             acts.push((Action::Blind(x), tag));
         }
-        acts.push((Action::Draw(Hand::from(0u64)), "action-draw-0"));
+        let mut draw = |run: &mut Run, acts: &mut Vec<(Action, &'static str)>, raw: u64, tag: &'static str| {
+            if let Some(h) = cv(run, &|| format!("Hand::from({raw}u64)"), || Hand::from(raw)) { acts.push((Action::Draw(h), tag)); }
+        };
+        draw(&mut run, &mut acts, 0, "action-draw-0");
         for x in 0..52u64 {
-            acts.push((Action::Draw(Hand::from(1u64 << x)), "action-draw-1(all 52)"));
+            draw(&mut run, &mut acts, 1u64 << x, "action-draw-1(all 52)");
             for y in (x + 1)..52 {
-                acts.push((Action::Draw(Hand::from(1u64 << x | 1 << y)), "action-draw-2(all 1326)"));
+                draw(&mut run, &mut acts, 1u64 << x | 1 << y, "action-draw-2(all 1326)");
                 for z in (y + 1)..52 {
-                    acts.push((Action::Draw(Hand::from(1u64 << x | 1 << y | 1 << z)), "action-draw-3(all 22100)"));
+                    draw(&mut run, &mut acts, 1u64 << x | 1 << y | 1 << z, "action-draw-3(all 22100)");
                 }
             }
         }
         for (act, tag) in acts {
             run.evaluations += 1;
-            let code = u32::from(act);
+            let code = match cv(&mut run, &|| format!("u32::from({})", show_action(&act)), || u32::from(act)) {
+                Some(c) => c,
+                None => { run.line(&format!("enc-action {}", show_action(&act)), "panic"); continue; }
+            };
             dist.push(code as i128);
             let back = catch(move || Action::from(code));
             run.line(&format!("enc-action {}", show_action(&act)), &format!("{code}"));
@@ -512,8 +566,8 @@ fn main() {
         for e in &edges {
             let e = *e;
             run.evaluations += 1;
-            let c8 = u8::from(e);
-            let c64 = u64::from(e);
+            let c8 = match cv(&mut run, &|| format!("u8::from({})", show_edge(&e)), || u8::from(e)) { Some(c) => c, None => { run.line(&format!("enc-edge8 {}", show_edge(&e)), "panic"); continue; } };
+            let c64 = match cv(&mut run, &|| format!("u64::from({})", show_edge(&e)), || u64::from(e)) { Some(c) => c, None => { run.line(&format!("enc-edge64 {}", show_edge(&e)), "panic"); continue; } };
             dist8.push(c8 as i128);
             dist64.push(c64 as i128);
             let b8 = catch(move || Edge::from(c8));
@@ -543,7 +597,7 @@ fn main() {
             for dn in 0i16..=255 {
                 run.evaluations += 1;
                 let e = Edge::Raise(Odds(n, dn));
-                let c = u64::from(e);
+                let c = match cv(&mut run, &|| format!("u64::from({})", show_edge(&e)), || u64::from(e)) { Some(c) => c, None => { run.line(&format!("enc-edge64 {}", show_edge(&e)), "panic"); continue; } };
                 d.push(c as i128);
                 let b = catch(move || Edge::from(c));
                 run.spec_checked += 1;
@@ -560,10 +614,15 @@ fn main() {
             let e = Edge::Raise(Odds(n, dn));
             let c8 = catch(move || u8::from(e));
             run.line(&format!("enc-edge8 {}", show_edge(&e)), &opt(c8.map(|x| x.to_string())));
-            let c = u64::from(e);
-            let b = catch(move || Edge::from(c));
-            run.line(&format!("enc-edge64 {}", show_edge(&e)), &format!("{c}"));
-            run.line(&format!("dec-edge64 {c}"), &opt(b.map(|x| show_edge(&x))));
+            // odds outside the grid / outside 8 bits are not values the property covers: panics are only compared with the model
+            match catch(move || u64::from(e)) {
+                Some(c) => {
+                    let b = catch(move || Edge::from(c));
+                    run.line(&format!("enc-edge64 {}", show_edge(&e)), &format!("{c}"));
+                    run.line(&format!("dec-edge64 {c}"), &opt(b.map(|x| show_edge(&x))));
+                }
+                None => run.line(&format!("enc-edge64 {}", show_edge(&e)), "panic"),
+            }
             run.count("edge-off-grid");
         }
         for i in 0..2000u64 {
@@ -587,28 +646,39 @@ fn main() {
         for e in &edges { lists.push(vec![*e; 16]); }
         let np = if deep { 300_000 } else { 50_000 };
         let mut seen = std::collections::HashSet::new();
-        for l in &lists { seen.insert(l.iter().map(|e| u8::from(*e)).collect::<Vec<u8>>()); }
+        // (dedup key: the position of each edge in `edges`, no real conversion involved)
+        let key = |l: &Vec<Edge>| l.iter().map(|e| edges.iter().position(|x| x == e).unwrap() as u8).collect::<Vec<u8>>();
+        for l in &lists { seen.insert(key(l)); }
         while lists.len() < np {
             let n = if rng.chance(1, 4) { 16 } else { rng.below(17) as usize };
             let l: Vec<Edge> = (0..n).map(|_| edges[rng.below(15) as usize]).collect();
-            if seen.insert(l.iter().map(|e| u8::from(*e)).collect::<Vec<u8>>()) { lists.push(l); }
+            if seen.insert(key(&l)) { lists.push(l); }
         }
         for l in lists {
             run.evaluations += 1;
             let l2 = l.clone();
-            let p = u64::from(Path::from(l2));
+            let p = match cv(&mut run, &|| format!("u64::from(Path::from([{}]))", show_edges(&l)), || u64::from(Path::from(l2))) {
+                Some(p) => p,
+                None => { run.line(&format!("enc-path {}", show_edges(&l)), "panic"); continue; }
+            };
             dist.push(p as i128);
             let back = catch(move || Vec::<Edge>::from(Path::from(p)));
             run.line(&format!("enc-path {}", show_edges(&l)), &format!("{p}"));
             run.line(&format!("dec-path {p}"), &opt(back.clone().map(|b| show_edges(&b))));
-            let i = i64::from(Path::from(p));
-            run.line(&format!("path-i64 {p}"), &format!("{i}"));
-            run.line(&format!("path-of-i64 {i}"), &format!("{}", u64::from(Path::from(i))));
             run.spec_checked += 2;
             if back.as_ref() != Some(&l) { run.fail("path-roundtrip", &show_edges(&l), &show_edges(&l), &opt(back.map(|b| show_edges(&b)))); }
-            if u64::from(Path::from(i)) != p { run.fail("path-i64-roundtrip", &format!("{p}"), &format!("{p}"), &format!("{}", u64::from(Path::from(i)))); }
             run.distinct(&("path", p));
             run.count(&format!("path-len={:02}", l.len()));
+            // the stored (BIGINT) form and back
+            match cv(&mut run, &|| format!("i64::from(Path [{}] = {p})", show_edges(&l)), || i64::from(Path::from(p))) {
+                None => run.line(&format!("path-i64 {p}"), "panic"),
+                Some(i) => {
+                    run.line(&format!("path-i64 {p}"), &format!("{i}"));
+                    let pb = cv(&mut run, &|| format!("Path::from({i}i64) (stored form of path [{}])", show_edges(&l)), || u64::from(Path::from(i)));
+                    run.line(&format!("path-of-i64 {i}"), &opt(pb.map(|x| x.to_string())));
+                    if pb.is_some() && pb != Some(p) { run.fail("path-i64-roundtrip", &format!("{p}"), &format!("{p}"), &format!("{pb:?}")); }
+                }
+            }
         }
         dist.check(&mut run);
         // 17 edges: the length assertion
@@ -631,16 +701,15 @@ fn main() {
         let counts = [169usize, robopoker::verif::KMEANS_FLOP_CLUSTER_COUNT, robopoker::verif::KMEANS_TURN_CLUSTER_COUNT, robopoker::verif::KMEANS_EQTY_CLUSTER_COUNT];
         for s in 0..4usize {
             let street = street_of(s);
-            let listed = Abstraction::all(street);
+            let listed = cv(&mut run, &|| format!("Abstraction::all(street {s})"), || Abstraction::all(street)).unwrap_or_default();
             run.spec_checked += 1;
             if listed.len() != counts[s] { run.fail("abstraction-count", &format!("street {s}"), &format!("{}", counts[s]), &format!("{}", listed.len())); }
             let mut v = vec![];
             for i in 0..counts[s] {
                 run.evaluations += 1;
-                let ab = Abstraction::from((street, i));
+                let enc = cv(&mut run, &|| format!("Abstraction::from((street {s}, {i})) and its u64 / i64 forms"), || { let ab = Abstraction::from((street, i)); (ab, u64::from(ab), i64::from(ab)) });
+                let (ab, n, i64v) = match enc { Some(x) => x, None => { run.line(&format!("abs {s} {i}"), "panic"); continue; } };
                 v.push(ab);
-                let n = u64::from(ab);
-                let i64v = i64::from(ab);
                 dist.push(n as i128);
                 run.line(&format!("abs {s} {i}"), &show_abs(&ab));
                 let back = catch(move || Abstraction::from(n));
@@ -653,8 +722,9 @@ fn main() {
                 run.spec_checked += 4;
                 if back != Some(ab) { run.fail("abstraction-u64-roundtrip", &format!("abs {s} {i}"), &show_abs(&ab), &format!("{back:?}")); }
                 if back2 != Some(ab) { run.fail("abstraction-i64-roundtrip", &format!("abs {s} {i}"), &show_abs(&ab), &format!("{back2:?}")); }
-                if st2 != Some(s) || street_no(ab.street()) != s { run.fail("street-from-bucket-code", &format!("abs {s} {i}"), &format!("{s}"), &format!("{st2:?}")); }
-                if ab.index() != i { run.fail("abstraction-index", &format!("abs {s} {i}"), &format!("{i}"), &format!("{}", ab.index())); }
+                let direct = cv(&mut run, &|| format!("street() / index() of Abstraction (street {s}, {i})"), || (street_no(ab.street()), ab.index()));
+                if st2 != Some(s) || direct.map(|d| d.0) != Some(s) { run.fail("street-from-bucket-code", &format!("abs {s} {i}"), &format!("{s}"), &format!("{st2:?}")); }
+                if direct.is_some() && direct.map(|d| d.1) != Some(i) { run.fail("abstraction-index", &format!("abs {s} {i}"), &format!("{i}"), &format!("{direct:?}")); }
                 if listed.get(i) != Some(&ab) { run.fail("abstraction-all-list", &format!("abs {s} {i}"), &show_abs(&ab), "other"); }
                 run.distinct(&("abs", n));
                 run.count(&format!("abstraction-street={s}"));
@@ -666,8 +736,8 @@ fn main() {
         for k in 0..2000u64 {
             let s = (k % 4) as usize;
             let i = match k { 0..=3 => 4095, 4..=7 => 4096, 8..=11 => usize::MAX, _ => (rng.next() >> rng.below(60)) as usize };
-            let ab = Abstraction::from((street_of(s), i));
-            run.line(&format!("abs {s} {i}"), &show_abs(&ab));
+            let ab = cv(&mut run, &|| format!("Abstraction::from((street {s}, {i}))"), || Abstraction::from((street_of(s), i)));
+            run.line(&format!("abs {s} {i}"), &opt(ab.map(|x| show_abs(&x))));
             run.count("abstraction-random-index");
         }
         for k in 0..2000u64 {
@@ -687,12 +757,16 @@ fn main() {
             for i in 0..v.len() {
                 for j in (i + 1)..v.len() {
                     run.evaluations += 1;
-                    let key = i64::from(Pair::from((&v[i], &v[j])));
-                    let key2 = i64::from(Pair::from((&v[j], &v[i])));
+                    let (va, vb) = (v[i], v[j]);
+                    let (na, nb) = match catch(move || (u64::from(va), u64::from(vb))) { Some(x) => x, None => continue }; // (already reported above)
+                    let enc = cv(&mut run, &|| format!("i64::from(Pair::from(({na}, {nb}))) in both orders and Pair::from(i64)"), || {
+                        let key = i64::from(Pair::from((&va, &vb)));
+                        (key, i64::from(Pair::from((&vb, &va))), i64::from(Pair::from(key)))
+                    });
+                    let (key, key2, keyback) = match enc { Some(x) => x, None => { run.line(&format!("pair {na} {nb}"), "panic"); continue; } };
                     dist.push(key as i128);
                     total += 1;
-                    let (na, nb) = (u64::from(v[i]), u64::from(v[j]));
-                    run.line(&format!("pair {na} {nb}"), &format!("{} {} {}", key as u64, key, i64::from(Pair::from(key)) as u64));
+                    run.line(&format!("pair {na} {nb}"), &format!("{} {} {}", key as u64, key, keyback as u64));
                     run.spec_checked += 1;
                     if key != key2 { run.fail("pair-key-not-symmetric", &format!("pair {na} {nb}"), &format!("{key}"), &format!("{key2}")); }
                     run.distinct(&("pair", key));
@@ -705,7 +779,7 @@ fn main() {
         for s in 1..4usize {
             let mut d = Distinct::new(["", "pair-key(flop)", "pair-key(turn)", "pair-key(river)"][s]);
             let v = &all_abs[s];
-            for i in 0..v.len() { for j in (i + 1)..v.len() { d.push(i64::from(Pair::from((&v[i], &v[j]))) as i128); } }
+            for i in 0..v.len() { for j in (i + 1)..v.len() { let (x, y) = (v[i], v[j]); if let Some(k) = catch(move || i64::from(Pair::from((&x, &y)))) { d.push(k as i128); } } }
             d.check(&mut run);
         }
     }
@@ -746,25 +820,31 @@ fn main() {
         for _ in 0..nb {
             let s = rng.below(4) as usize;
             let ab = all_abs[s][rng.below(all_abs[s].len() as u64) as usize];
-            let mk = |rng: &mut Rng| -> u64 {
+            let mut mk = |rng: &mut Rng, run: &mut Run| -> Option<u64> {
                 let n = rng.below(17) as usize;
-                u64::from(Path::from((0..n).map(|_| edges[rng.below(15) as usize]).collect::<Vec<Edge>>()))
+                let l = (0..n).map(|_| edges[rng.below(15) as usize]).collect::<Vec<Edge>>();
+                let shown = show_edges(&l);
+                cv(run, &|| format!("u64::from(Path::from([{shown}]))"), || u64::from(Path::from(l)))
             };
-            let (p, f) = (mk(&mut rng), mk(&mut rng));
-            if !seen.insert((p, u64::from(ab), f)) { continue; }
+            let (p, f) = match (mk(&mut rng, &mut run), mk(&mut rng, &mut run)) { (Some(p), Some(f)) => (p, f), _ => continue };
+            let nab = match catch(move || u64::from(ab)) { Some(x) => x, None => continue };
+            if !seen.insert((p, nab, f)) { continue; }
             run.evaluations += 1;
-            let b = Bucket::from((Path::from(p), ab, Path::from(f)));
-            let codes = (i64::from(b.0), i64::from(b.1), i64::from(b.2));
+            let enc = cv(&mut run, &|| format!("Bucket::from((Path::from({p}), abstraction {nab}, Path::from({f}))) and its three i64 columns"), || {
+                let b = Bucket::from((Path::from(p), ab, Path::from(f)));
+                (b, (i64::from(b.0), i64::from(b.1), i64::from(b.2)))
+            });
+            let (b, codes) = match enc { Some(x) => x, None => { run.line(&format!("enc-bucket {p} {nab} {f}"), "panic"); continue; } };
             dist.push(((codes.0 as i128) << 64) ^ ((codes.1 as i128).wrapping_mul(0x9E3779B97F4A7C15)) ^ (codes.2 as i128).rotate_left(32));
-            run.line(&format!("enc-bucket {p} {} {f}", u64::from(ab)), &format!("{} {} {}", codes.0, codes.1, codes.2));
+            run.line(&format!("enc-bucket {p} {} {f}", nab), &format!("{} {} {}", codes.0, codes.1, codes.2));
             let back = catch(move || Bucket::from((Path::from(codes.0), Abstraction::from(codes.1), Path::from(codes.2))));
             let st = back.and_then(|x| catch(move || street_no(x.1.street())));
             run.line(&format!("dec-bucket {} {} {}", codes.0, codes.1, codes.2),
-                &opt(back.map(|x| format!("{} {} {} {}", u64::from(x.0), show_abs(&x.1), u64::from(x.2), opt(st.map(|v| v.to_string()))))));
+                &opt(back.map(|x| format!("{} {} {} {}", word(move || u64::from(x.0)), show_abs(&x.1), word(move || u64::from(x.2)), opt(st.map(|v| v.to_string()))))));
             run.spec_checked += 2;
-            if back != Some(b) { run.fail("bucket-roundtrip", &format!("bucket {p} {} {f}", u64::from(ab)), "the same bucket", &format!("{back:?}")); }
-            if st != Some(s) { run.fail("street-from-bucket-code", &format!("bucket {p} {} {f}", u64::from(ab)), &format!("{s}"), &format!("{st:?}")); }
-            run.distinct(&("bucket", p, u64::from(ab), f));
+            if back != Some(b) { run.fail("bucket-roundtrip", &format!("bucket {p} {nab} {f}"), "the same bucket", &format!("{back:?}")); }
+            if st != Some(s) { run.fail("street-from-bucket-code", &format!("bucket {p} {nab} {f}"), &format!("{s}"), &format!("{st:?}")); }
+            run.distinct(&("bucket", p, nab, f));
             run.count("bucket(sampled paths x all 542 abstractions)");
         }
         let _ = dist; // triples are distinct iff components are; component distinctness is checked above
